@@ -239,7 +239,11 @@ static uint64_t run_case_cl(const TinyLP& t, const Classification& cl, const std
          c.count("interrupted_continuation_status." + std::to_string(st2));
          std::string v = judge_verdict(st2, spx.objValueReal(), cl);
          if(!v.empty()) { c.violation("false-verdict-when-stopped:" + where, cs, v + pt); return; }
-         if(st2 != -7 && it2 > 0) { c.violation("interrupt-ignored:" + where, cs, "optimize(&flag) with the flag raised on entry returned status " + std::to_string(st2) + " after " + std::to_string(it2) + " simplex iterations" + pt); return; }
+         // under solution polishing a true OPTIMAL may come back together with a few (polishing) pivots: the statement allows a verdict that "was actually established",
+         // and which of the pivots came after it cannot be observed from outside - counted, not judged (the eleven configurations without polishing keep the strict rule)
+         const bool polishing = g_cs.value(cfg, "solution_polishing") != 0;
+         if(st2 != -7 && it2 > 0 && polishing) c.count("observation.verdict_with_iterations_under_polishing_despite_raised_flag");
+         else if(st2 != -7 && it2 > 0) { c.violation("interrupt-ignored:" + where, cs, "optimize(&flag) with the flag raised on entry returned status " + std::to_string(st2) + " after " + std::to_string(it2) + " simplex iterations" + pt); return; }
          if(spx.hasBasis()) { std::string b = basis_valid(spx, mo); if(!b.empty()) { c.violation("invalid-basis-after-stop:" + where, cs, b + pt); return; } }
          g_interrupt = false;
          spx.setRealParam(SoPlex::OBJLIMIT_LOWER, -1e100);
@@ -303,6 +307,9 @@ int main(int argc, char** argv)
    cfgs.push_back(g_cs.parse("pricer=5,simplifier=0"));
    cfgs.push_back(g_cs.parse("ratiotester=3,simplifier=0"));
    cfgs.push_back(g_cs.parse("pricer=1,ratiotester=0,simplifier=0"));
+   // solution polishing: extra pivots after optimality, which have to respect the limits as well (added after seeded change C16-d)
+   cfgs.push_back(g_cs.parse("solution_polishing=1,simplifier=0"));
+   cfgs.push_back(g_cs.parse("solution_polishing=2"));
    if(!args.replay.empty())
    {
       std::ifstream in(args.replay);
@@ -336,7 +343,7 @@ int main(int argc, char** argv)
       while(raw < lim && !fs.get(raw, t)) ++raw;
       return raw < lim;
    };
-   rep.phase("stop points: LP x 11 configurations (floating point)", (fs.total / stride) * NC, [&](uint64_t idx, int, Ctx & c) -> uint64_t
+   rep.phase("stop points: LP x 13 configurations (floating point)", (fs.total / stride) * NC, [&](uint64_t idx, int, Ctx & c) -> uint64_t
    {
       TinyLP t;
       if(!lpAt(idx / NC, t)) return 0;
@@ -370,7 +377,7 @@ int main(int argc, char** argv)
       pg.seeds = thorough ? 10 : 2;
       pg.kinds = 4;     // with the covering LPs: the dual simplex starts dual feasible, so objective limits really stop it (ABORT_VALUE)
       auto sfxP = [&](uint64_t idx, uint64_t sub) { return std::string("@") + (sub >= 999999 ? "timelimit0" : sub >= 100000 ? "timelimit" : sub >= 1000 ? "interrupt" : sub >= 499 ? "interrupt-at-entry" : "iterlimit") + "|" + g_cs.str(cfgs[idx % NC]) + "+planted"; };
-      rep.phase("stop points: planted LPs up to 16x12 / 12x20 x 11 configurations (floating point)", pg.size() * NC, [&](uint64_t idx, int, Ctx & c) -> uint64_t
+      rep.phase("stop points: planted LPs up to 16x12 / 12x20 x 13 configurations (floating point)", pg.size() * NC, [&](uint64_t idx, int, Ctx & c) -> uint64_t
       {
          c.count("lp_x_cfg_planted");
          return run_planted16(pg.at(idx / NC), cfgs[idx % NC], false, c);
